@@ -40,6 +40,9 @@ Fixpoint while_fuel {S : Type} (fuel : nat) (cond : S -> bool) (body : S -> S) (
   | Datatypes.S k => if cond s then while_fuel k cond body (body s) else Some s
   end.
 
+(* data[i] on a []byte rendered as list Z (gofrag): -1, which is no octet, outside the slice (where Go panics) *)
+Definition idx (l : list Z) (i : Z) : Z := if i <? 0 then -1 else List.nth (Z.to_nat i) l (-1).
+
 Definition oget {A} (d : A) (o : option A) : A := match o with Some x => x | None => d end.
 Definition is_some {A} (o : option A) : bool := match o with Some _ => true | None => false end.
 Definition is_none {A} (o : option A) : bool := match o with Some _ => false | None => true end.
